@@ -2,7 +2,7 @@
 SPECIFICATION TSpec
 CONSTANTS
   Devs = {"FirstFromOnly"}
-  Families = {"A", "B", "C", "D", "E", "F"}
+  Families = {"A", "B", "C", "D", "E", "F", "G", "H"}
   Gen = FALSE
 CHECK_DEADLOCK FALSE
 POSTCONDITION Post
